@@ -57,6 +57,39 @@ def calcEnv (m : Mgr) (dec : String → V) (vars : List (List Rune × V)) : Eval
       | .isNotNull => .ok (.bool (a.typ != .null))
       | _ => .err "INTERNAL" }
 
+/-- the same environment for any constant payload type (the text pipeline carries values) -/
+def calcEnvK {κ : Type} (m : Mgr) (dec : κ → V) (vars : List (List Rune × V)) : EvalEnv κ V :=
+  { ofConst := dec
+    ofArgc := fun n => .int (Int64.ofNat n)
+    asArgc := fun v => match v with
+      | .int i => if i.toInt < 0 then some 0 else some i.toInt.toNat
+      | _ => none
+    lookupVar := findVar vars
+    hasFn := fun n => (findFn n).isSome
+    callFn := fun n args => (callFn m n args).toOut
+    binop := fun t a b =>
+      match t with
+      | .in_ => (binop m .in_ b a).toOut
+      | .notIn =>
+        match binop m .in_ b a with
+        | .ok (.bool r) => .ok (.bool (!r))
+        | r => r.toOut
+      | .element => (binop m .getElement a b).toOut
+      | t =>
+        match etOp t with
+        | some op => (binop m op a b).toOut
+        | none => .err "INTERNAL"
+    unop := fun t a =>
+      match t with
+      | .not => (unop .not a).toOut
+      | .unary => (unop .neg a).toOut
+      | .isNull => .ok (.bool (a.typ == .null))
+      | .isNotNull => .ok (.bool (a.typ != .null))
+      | _ => .err "INTERNAL" }
+
+theorem calcEnv_eq_calcEnvK (m : Mgr) (dec : String → V) (vars : List (List Rune × V)) :
+    calcEnv m dec vars = calcEnvK m dec vars := rfl
+
 /-! ### ordered collections (VariableCollection / FunctionCollection) against plain lists -/
 
 structure Coll (α : Type) where
